@@ -259,3 +259,24 @@ def tchain(draw, max_len=3, require_random=False, allow_expanding=True):
 
 
 OUTPUT_OPTS = [[], ['-q'], ['-v'], ['--varnames'], ['-of', 'opb'], ['-of', 'latex'], ['-of', 'dimacs', '--varnames'], ['-l']]
+
+
+# ---------------------------------------------------------------------------
+# the spellings argparse accepts for "--seed N"
+
+SEED_FORMS = 5
+
+
+def seed_tokens(seed, form=0):
+    """the same option in every spelling the tools accept: '--seed N', '-S N', '--seed=N', '-SN', an unambiguous prefix"""
+    s = str(seed)
+    form = form % SEED_FORMS
+    if form == 1:
+        return ['-S', s]
+    if form == 2:
+        return ['--seed=' + s]
+    if form == 3:
+        return ['-S' + s]
+    if form == 4:
+        return ['--see', s]
+    return ['--seed', s]
